@@ -3,6 +3,7 @@ package c15
 
 import (
 	"bytes"
+	"encoding/gob"
 	"fmt"
 	"os"
 	"strings"
@@ -42,11 +43,12 @@ const (
 	DEmptyBitmap   // Arg% of the 'V' values replaced by an empty value
 	DTruncBitmap   // Arg% of the 'V' values truncated to half
 	DHugeGarbage   // one 'V' value replaced by > 64 KiB of junk (wrong cookie)
+	DZeroSchema    // 'S' = zero bytes (as many as before, or Arg%9 of them)
 	nDamage
 )
 
 var damageName = []string{"none", "missing-path", "zero-bytes", "empty-db", "other-bucket", "del-bucket", "del-schema", "empty-schema",
-	"trunc-schema", "flip-schema", "garbage-schema", "del-counter", "short-counter", "long-counter", "garbage-bitmap", "empty-bitmap", "trunc-bitmap", "huge-garbage-bitmap"}
+	"trunc-schema", "flip-schema", "garbage-schema", "del-counter", "short-counter", "long-counter", "garbage-bitmap", "empty-bitmap", "trunc-bitmap", "huge-garbage-bitmap", "zero-schema"}
 
 type Damage struct {
 	Kind int
@@ -140,6 +142,12 @@ func apply(dir string, rows []model.Row, c *Case) (path string, ex expect, err e
 				return b.Put([]byte("S"), s)
 			case DGarbageSchema:
 				return b.Put([]byte("S"), bytes.Repeat([]byte{0xff, 0x00, 0x7f, byte(dm.Arg)}, 5))
+			case DZeroSchema:
+				n := len(b.Get([]byte("S")))
+				if dm.Arg%2 == 1 {
+					n = 1 + dm.Arg%9
+				}
+				return b.Put([]byte("S"), make([]byte, n))
 			case DDelCounter:
 				return b.Delete([]byte("I"))
 			case DShortCounter:
@@ -221,6 +229,8 @@ func expectFromFile(path string, preload bool) (ex expect, err error) {
 			ex = expect{true, "the schema is missing"}
 		case len(b.Get([]byte("S"))) == 0:
 			ex = expect{true, "the schema is empty (undecodable)"}
+		case schemaUndecodable(b.Get([]byte("S"))) != nil:
+			ex = expect{true, fmt.Sprintf("the schema is undecodable (gob on a structurally identical type: %v)", schemaUndecodable(b.Get([]byte("S"))))}
 		case b.Get([]byte("I")) == nil:
 			ex = expect{true, "the row counter is missing"}
 		case len(b.Get([]byte("I"))) < 4:
@@ -237,6 +247,16 @@ func expectFromFile(path string, preload bool) (ex expect, err error) {
 		return nil
 	})
 	return ex, err
+}
+
+// schemaUndecodable decodes the stored schema into a type that is
+// structurally identical to the library's (gob matches by structure and field
+// name, not by type name): an error here means no decoder can read it.
+func schemaUndecodable(b []byte) error {
+	var m struct {
+		Columns map[string]*struct{ Values map[string]uint64 }
+	}
+	return gob.NewDecoder(bytes.NewReader(b)).Decode(&m)
 }
 
 // released checks that nobody holds the file lock: a plain bbolt.Open with a
@@ -291,6 +311,11 @@ func oracle(c *Case) error {
 			if missing {
 				if _, serr := os.Stat(path); serr == nil {
 					return nil, fmt.Errorf("%s: opening a nonexistent path created it", label)
+				}
+				if _, lexical, _ := fix.Alias(path, c.Open.Via); lexical != path {
+					if _, serr := os.Stat(lexical); serr == nil {
+						return nil, fmt.Errorf("%s: opening a nonexistent path through %s created %s", label, fix.ViaName[c.Open.Via], lexical)
+					}
 				}
 				return nil, nil
 			}
@@ -461,6 +486,10 @@ func drawCase(t *rapid.T) *Case {
 	}
 	c.Open.Preload = rapid.Bool().Draw(t, "preload")
 	c.Open.CacheCap = rapid.SampledFrom([]int64{-1, -1, 0, 1 << 20}).Draw(t, "cap")
+	c.Open.Twice = rapid.IntRange(0, 4).Draw(t, "twice") == 0
+	if rapid.IntRange(0, 2).Draw(t, "alias") == 0 {
+		c.Open.Via = rapid.IntRange(1, fix.NVia-1).Draw(t, "via")
+	}
 	c.Hist = rapid.IntRange(0, nHist-1).Draw(t, "hist")
 	return c
 }
